@@ -602,7 +602,8 @@ theorem C18_icm_nonneg (payouts chips : List Rat) (hp : ∀ x ∈ payouts, 0 ≤
     apply foldl_add_nonneg _ _ 0 (le_refl 0)
     intro x hx
     obtain ⟨o, ho, rfl⟩ := List.mem_map.mp hx
-    have hprob := orderProbability_nonneg _ payouts.length (List.range chips.length) hpos List.nodup_range o ho
+    have hprob := orderProbability_nonneg _ (min payouts.length chips.length) (List.range chips.length) hpos
+      List.nodup_range o ho
     rw [hmass] at hprob
     apply foldl_add_nonneg _ _ 0 (le_refl 0)
     intro y hy
@@ -634,22 +635,36 @@ theorem sum_single_rat (c : Rat) (j n : Nat) (hj : j < n) :
       rw [this]
       simp
 
-/-- **ICM values sum to the prize pool** (at most as many payouts as players, positive chips) -/
-theorem C18_icm_sum (payouts chips : List Rat) (hc : ∀ c ∈ chips, 0 < c)
-    (hk : payouts.length ≤ chips.length) (hne : chips ≠ []) :
-    (icm payouts chips).sum = payouts.sum := by
+theorem zip_take_left {α β : Type} (a : List α) (b : List β) (m : Nat) (h : b.length ≤ m) :
+    (a.take m).zip b = a.zip b := by
+  induction a generalizing b m with
+  | nil => simp
+  | cons x xs ih =>
+    cases b with
+    | nil => simp
+    | cons y ys =>
+      cases m with
+      | zero => simp at h
+      | succ m =>
+        simp only [List.take_succ_cons, List.zip_cons_cons]
+        rw [ih ys m (by simpa using h)]
+
+/-- **ICM values sum to the prize pool** — the places that can be reached: all of them when there are at most
+    as many payouts as players, the first `n` with `n` players otherwise (positive chips) -/
+theorem C18_icm_sum_take (payouts chips : List Rat) (hc : ∀ c ∈ chips, 0 < c) (hne : chips ≠ []) :
+    (icm payouts chips).sum = (payouts.take chips.length).sum := by
   obtain ⟨hpos, hmass⟩ := pct_facts chips hc hne
   rw [lsum_eq] at hpos hmass
   unfold icm
   simp only [lsum_eq]
   -- swap: sum over players of (sum over orders …) = sum over orders of (sum over players …)
-  rw [sum_swap (permsK payouts.length (List.range chips.length)) (List.range chips.length)
+  rw [sum_swap (permsK (min payouts.length chips.length) (List.range chips.length)) (List.range chips.length)
     (fun o i => ((payouts.zip o).map fun x =>
       if (x.2 == i) = true then x.1 * orderProbability (chips.map (· / chips.sum)) o 1 else 0).sum)]
-  have horder : ∀ o ∈ permsK payouts.length (List.range chips.length),
+  have horder : ∀ o ∈ permsK (min payouts.length chips.length) (List.range chips.length),
       ((List.range chips.length).map fun i => ((payouts.zip o).map fun x =>
         if (x.2 == i) = true then x.1 * orderProbability (chips.map (· / chips.sum)) o 1 else 0).sum).sum =
-      orderProbability (chips.map (· / chips.sum)) o 1 * payouts.sum := by
+      orderProbability (chips.map (· / chips.sum)) o 1 * (payouts.take chips.length).sum := by
     intro o ho
     obtain ⟨hlen, hmem⟩ := permsK_mem _ _ _ ho
     rw [sum_swap (payouts.zip o) (List.range chips.length)
@@ -661,14 +676,20 @@ theorem C18_icm_sum (payouts chips : List Rat) (hc : ∀ c ∈ chips, 0 < c)
       have hj := hmem x.2 (List.of_mem_zip hx).2
       exact sum_single_rat _ _ _ (List.mem_range.mp hj)
     rw [List.map_congr_left hz, List.sum_map_mul_right]
-    have : ((payouts.zip o).map fun x => x.1) = payouts := by
-      rw [List.map_fst_zip]; omega
+    have : ((payouts.zip o).map fun x => x.1) = payouts.take chips.length := by
+      rw [← zip_take_left payouts o chips.length (by omega), List.map_fst_zip]
+      rw [List.length_take]; omega
     rw [this]; ring
   rw [List.map_congr_left horder, List.sum_map_mul_right]
-  have hnorm := orderProbability_sum _ payouts.length (List.range chips.length) hpos List.nodup_range
-    (by simpa using hk)
+  have hnorm := orderProbability_sum _ (min payouts.length chips.length) (List.range chips.length) hpos
+    List.nodup_range (by simp)
   rw [hmass] at hnorm
   rw [hnorm]; ring
 
+/-- at most as many payouts as players: the whole prize pool -/
+theorem C18_icm_sum (payouts chips : List Rat) (hc : ∀ c ∈ chips, 0 < c)
+    (hk : payouts.length ≤ chips.length) (hne : chips ≠ []) :
+    (icm payouts chips).sum = payouts.sum := by
+  rw [C18_icm_sum_take payouts chips hc hne, List.take_of_length_le hk]
 
 end PK
